@@ -26,9 +26,19 @@ var ProcIds = []string{"w0", "w1", "w2"}
 var ExecIds = []string{"e0", "e1", "e2"}
 var ResIds = []string{"r0", "r1", "R0"}
 var SchedIds = []string{"s0", "s1", "S0", "s:x"}
-var TagKeys = []string{"k", "resonate:timeout", "resonate:invoke", "a.b", "x y"}
+var TagKeys = []string{"k", "a.b", "resonate:timeout", "resonate:invoke", "x y"}
 var TagVals = []string{"true", "v", "", "poll://g/i"}
 var Keys = []string{"i0", "i1"}
+var SchedPatterns = []string{"*", "s*", "*0", "s:x", "s_"}
+
+// DialectSafe restricts the pools to the documented common ground of the two SQL dialects
+// (no ASCII upper-case letters, no backslash, plain tag keys).
+func DialectSafe() {
+	PromiseIds = []string{"p0", "p1", "p2", "a:b", "b:c", "x/y", "p_", "%"}
+	Patterns = []string{"*", "p*", "*1", "p_", "*:*", "a:b", "p0", "x/*", "%"}
+	SchedIds = []string{"s0", "s1", "s:x"}
+	TagKeys = []string{"kk", "resonate:timeout", "resonate:invoke"}
+}
 
 func (g *G) pick(xs []string) string { return xs[g.R.Intn(len(xs))] }
 func (g *G) time() int64             { return int64(g.R.Intn(40)) }
@@ -190,7 +200,7 @@ func (g *G) CommandOf(k t_aio.StoreKind) *t_aio.Command {
 	case t_aio.SearchPromises:
 		tags := map[string]string{}
 		if g.R.Intn(3) == 0 {
-			tags = g.smap([]string{"k", "resonate:timeout", "a.b"})
+			tags = g.smap(TagKeys[:2])
 		}
 		c.SearchPromises = &t_aio.SearchPromisesCommand{Id: g.pick(Patterns), States: g.pstates(), Tags: tags, Limit: g.limit(), SortId: g.optSort()}
 	case t_aio.CreatePromise:
@@ -214,9 +224,9 @@ func (g *G) CommandOf(k t_aio.StoreKind) *t_aio.Command {
 	case t_aio.SearchSchedules:
 		tags := map[string]string{}
 		if g.R.Intn(3) == 0 {
-			tags = g.smap([]string{"k", "a.b"})
+			tags = g.smap(TagKeys[:1])
 		}
-		c.SearchSchedules = &t_aio.SearchSchedulesCommand{Id: g.pick([]string{"*", "s*", "S*", "*0", "s:x", "s_"}), Tags: tags, Limit: g.limit(), SortId: g.optSort()}
+		c.SearchSchedules = &t_aio.SearchSchedulesCommand{Id: g.pick(SchedPatterns), Tags: tags, Limit: g.limit(), SortId: g.optSort()}
 	case t_aio.CreateSchedule:
 		c.CreateSchedule = &t_aio.CreateScheduleCommand{Id: g.pick(SchedIds), Description: g.pick([]string{"", "d"}), Cron: g.pick([]string{"* * * * *", "0 0 1 1 *"}),
 			Tags: g.smap(TagKeys), PromiseId: g.pick([]string{"{{.id}}.{{.timestamp}}", "fixed"}), PromiseTimeout: g.time(), PromiseParam: g.value(),
